@@ -15,6 +15,12 @@ type StructV []Value
 type ArrV []Value
 type Tuple []Value
 
+// BArr: a standalone [N]byte array represented as a byte object.
+type BArr struct {
+	b *BObj
+	n int
+}
+
 // Obj is a heap/stack cell holding one Value tree.
 type Obj struct {
 	id  int
